@@ -4,7 +4,7 @@ from props.c03 import rule_decrypt_result
 
 META = {
     "level": "other",
-    "explanation": "Type-resolved enumeration of panic-capable operations on message components in everything reachable from polytune::mpc: "
+    "explanation": "(R1.serde) wire types are decoded by derived serde implementations only - no hand-written byte-buffer / string decoding, which makes bincode allocate the length a peer claims. Type-resolved enumeration of panic-capable operations on message components in everything reachable from polytune::mpc: "
                    "(R1.i) index / slice / split / copy_from_slice on a vector of a received message below the nesting level whose length the "
                    "receive primitive validated must sit behind a fail-closed length test; (R1.iii) unwrap/expect on values derived from a "
                    "message (incl. the AEAD plaintext and decrypt's Result) is forbidden except conversions of length-validated vectors; "
